@@ -173,6 +173,12 @@ pub mod restrictions {
                     return Err(SoapError::Restriction("maxExclusive restriction not met".to_string()));
                 }
             }
+
+            if let Some(enumeration) = restrictions.enumeration.as_ref() {
+                if !enumeration.iter().any(|e| e.parse::<i128>() == Ok(value)) {
+                    return Err(SoapError::Restriction("enumeration restriction not met".to_string()));
+                }
+            }
         }
 
         Ok(())
